@@ -11,16 +11,17 @@
 //	          ordered by distance from the two corners (k options on / k options off, k = 0, 1, ...),
 //	          all grammars per level. Every case is *generated*; the generated file sets are grouped
 //	          by content (package name normalised) and one representative per distinct output is
-//	          built and vetted, in enumeration order, until the budget is used (prefix reported).
+//	          built, in enumeration order, until the budget is used (prefix reported).
 //
 // Phase A (worker subprocesses, log.Fatal is turned into a panic by a log output hook so the site is
 // known; anything else that kills or stalls a worker is caught by the shard protocol): the real
 // compiler.Compile + gen.Generate. A compile error means the grammar/option combination is rejected
-// by the compiler and is not a case. Phase B (worker subprocesses): genharness.RunBatch writes the
-// files into a scratch module, `go build`s them, and `go vet`s them.
+// by the compiler and is not a case. Phase B (worker subprocesses): the files of a batch of cases are
+// written into one scratch module and `go build ./...` compiles every package of it.
 //
 // Oracle: no worker death / panic / log.Fatal; gen.Generate returns nil; the generated packages (all of
-// them: root, token, ast, selector) build and pass go vet.
+// them: root, token, ast, selector) compile. go vet diagnostics (thorough tier) are recorded as
+// coverage only: the property says "build".
 package main
 
 import (
@@ -229,7 +230,26 @@ func satisfies(row uint32, t target, pinMask uint32) bool {
 
 // coveringRows returns the default configuration followed by rows that together satisfy every
 // 2-way target over the free options. Deterministic greedy construction.
+// The array depends on the grammar only through its pins, so it is computed once per distinct pin set.
+var coveringCache = map[[2]uint32]struct {
+	rows []uint32
+	n    int
+}{}
+
 func coveringRows(g *featGrammar) (rows []uint32, ntargets int) {
+	key := [2]uint32{g.PinMask, g.PinVal}
+	if c, ok := coveringCache[key]; ok {
+		return c.rows, c.n
+	}
+	rows, ntargets = coveringRowsUncached(g)
+	coveringCache[key] = struct {
+		rows []uint32
+		n    int
+	}{rows, ntargets}
+	return rows, ntargets
+}
+
+func coveringRowsUncached(g *featGrammar) (rows []uint32, ntargets int) {
 	var free []int
 	for i := range options {
 		if g.PinMask&(1<<uint(i)) == 0 {
@@ -339,7 +359,7 @@ func coveringRows(g *featGrammar) (rows []uint32, ntargets int) {
 					best, bestGain = row, gn
 				}
 			}
-			if seeds++; seeds >= 4 {
+			if seeds++; seeds >= 24 {
 				break
 			}
 		}
@@ -513,19 +533,22 @@ func stackSite(stack string) string {
 // Classification of failures into stable keys "<class>:<site>".
 
 var (
-	genErrRE   = regexp.MustCompile(`error generating (\S+?):`)
-	callRE     = regexp.MustCompile(`error calling (\w+)`)
-	numRE      = regexp.MustCompile(`[0-9]+`)
-	posRE      = regexp.MustCompile(`(\S+\.go):\d+(:\d+)?:?`)
-	dupMethRE  = regexp.MustCompile(`method (\w+)\.(\w+) already declared`)
-	dupFieldRE = regexp.MustCompile(`field and method with the same name (\w+)`)
-	unusedImRE = regexp.MustCompile(`"([^"]+)" imported (?:as \w+ )?and not used`)
-	unusedVaRE = regexp.MustCompile(`declared and not used: (\w+)`)
-	undefRE    = regexp.MustCompile(`undefined: (\S+)`)
-	redeclRE   = regexp.MustCompile(`(\S+) redeclared`)
-	dupCaseRE  = regexp.MustCompile(`duplicate case (\S+)`)
-	overflowRE = regexp.MustCompile(`(overflows|truncated to) (\w+)`)
-	buildLnRE  = regexp.MustCompile(`^(?:vet: )?(?:\./)?(g\d+)/(\S+?\.go):\d+(?::\d+)?: (.*)$`)
+	genErrRE    = regexp.MustCompile(`error generating (\S+?):`)
+	callRE      = regexp.MustCompile(`error calling (\w+)`)
+	numRE       = regexp.MustCompile(`[0-9]+`)
+	posRE       = regexp.MustCompile(`(\S+\.go):\d+(:\d+)?:?`)
+	dupMethRE   = regexp.MustCompile(`method (\w+)\.(\w+) already declared`)
+	dupFieldRE  = regexp.MustCompile(`field and method with the same name (\w+)`)
+	unusedImRE  = regexp.MustCompile(`"([^"]+)" imported (?:as \w+ )?and not used`)
+	unusedVaRE  = regexp.MustCompile(`declared and not used: (\w+)`)
+	undefRE     = regexp.MustCompile(`undefined: (\S+)`)
+	redeclRE    = regexp.MustCompile(`(\S+) redeclared`)
+	dupCaseRE   = regexp.MustCompile(`duplicate case (\S+)`)
+	overflowRE  = regexp.MustCompile(`(overflows|truncated to) (\w+)`)
+	noFieldRE   = regexp.MustCompile(`undefined \(type (\S+) has no field or method (\w+)`)
+	arityRE     = regexp.MustCompile(`(not enough|too many) arguments in call to (\S+)`)
+	wrongMethRE = regexp.MustCompile(`\((missing|wrong type for) method (\w+)\)`)
+	buildLnRE   = regexp.MustCompile(`^(?:vet: )?(?:\./)?(g\d+)/(\S+?\.go):\d+(?::\d+)?: (.*)$`)
 )
 
 // genFailureKey classifies a GenErr / GenPanic of genharness.Generate ("" = compile error, not a case).
@@ -583,6 +606,15 @@ func buildMsgClass(msg string) string {
 		return "unused-import-" + unusedImRE.FindStringSubmatch(msg)[1]
 	case unusedVaRE.MatchString(msg):
 		return "unused-variable-" + unusedVaRE.FindStringSubmatch(msg)[1]
+	case noFieldRE.MatchString(msg):
+		m := noFieldRE.FindStringSubmatch(msg)
+		return "no-field-or-method-" + strings.TrimLeft(m[1], "*") + "." + m[2]
+	case arityRE.MatchString(msg):
+		m := arityRE.FindStringSubmatch(msg)
+		return "call-arity-" + m[2]
+	case wrongMethRE.MatchString(msg):
+		m := wrongMethRE.FindStringSubmatch(msg)
+		return "interface-not-implemented-" + m[2]
 	case undefRE.MatchString(msg):
 		return "undefined-" + undefRE.FindStringSubmatch(msg)[1]
 	case redeclRE.MatchString(msg):
@@ -694,7 +726,8 @@ type record struct {
 	Hash  string `json:"h,omitempty"`
 	Files int    `json:"nf,omitempty"`
 	Feat  string `json:"f,omitempty"` // features of the compiled grammar (coverage)
-	Err   string `json:"e,omitempty"` // build: BuildErr
+	Err   string `json:"e,omitempty"` // build: the compiler's messages
+	Vet   string `json:"v,omitempty"` // build: go vet diagnostics (informational)
 }
 
 func hashFiles(files map[string]string, name string) string {
@@ -745,11 +778,125 @@ func trimTo(s string, n int) string {
 	return s
 }
 
-func nullDriver(g *grammar.Grammar, name string) string {
-	return "package " + name + "\n\nimport \"scratch/rt\"\n\n// VerifRun is referenced by the harness main package; no input is run by this check.\nfunc VerifRun(entry, mode, text string) rt.Result { return rt.Result{} }\n"
+const buildBatch = 32
+
+// buildSpec is one case of a build batch.
+type buildSpec struct {
+	Idx  int
+	Name string
+	TM   string
 }
 
-const buildBatch = 24
+func goEnv() []string {
+	return append(os.Environ(), "GOFLAGS=-mod=mod", "GOPROXY=off", "GOTOOLCHAIN=local", "GOSUMDB=off", "GOWORK=off")
+}
+
+var pkgHeaderRE = regexp.MustCompile(`^# scratch/(g\d+)`)
+var errLineRE = regexp.MustCompile(`^(?:vet: )?(?:\./)?(g\d+)/`)
+
+// buildAll generates every spec again (in this process), writes all generated files as packages
+// scratch/<name>/... of one scratch module and runs `go build ./...` on it, which compiles every
+// package of every case (root, token, ast, selector) without linking anything. Cases whose packages
+// fail are removed and the build is repeated until it is clean, so that every failing case gets its
+// own complete error text. (genharness.RunBatch is not used here: it builds one binary that imports
+// the root packages only, so ast/ and selector/ are never compiled, and its vet pass drops the type
+// errors go vet reports for them.) With vet = true, `go vet ./...` runs on the cases that build and
+// its diagnostics are returned in Vet — they are not build failures and are not part of the oracle.
+func buildAll(specs []buildSpec, vet bool) ([]record, error) {
+	dir, err := os.MkdirTemp("", "verif-c17-build-")
+	if err != nil {
+		return nil, err
+	}
+	defer os.RemoveAll(dir)
+	if err := os.WriteFile(filepath.Join(dir, "go.mod"), []byte("module scratch\n\ngo 1.25\n"), 0o644); err != nil {
+		return nil, err
+	}
+	recs := make([]record, len(specs))
+	byName := map[string]int{}
+	alive := map[int]bool{}
+	for i, sp := range specs {
+		recs[i] = record{T: "b", Idx: sp.Idx, St: "ok"}
+		byName[sp.Name] = i
+		_, files, genErr, genPanic := genharness.Generate(sp.Name, sp.TM)
+		if genErr != "" || genPanic != "" {
+			recs[i].St, recs[i].Err = "regen-failed", trimTo(genErr+genPanic, 1500)
+			continue
+		}
+		for fn, content := range files {
+			p := filepath.Join(dir, sp.Name, fn)
+			if err := os.MkdirAll(filepath.Dir(p), 0o755); err != nil {
+				return nil, err
+			}
+			if err := os.WriteFile(p, []byte(content), 0o644); err != nil {
+				return nil, err
+			}
+		}
+		alive[i] = true
+	}
+	attribute := func(out string) map[int][]string {
+		failed := map[int][]string{}
+		cur := -1
+		for _, line := range strings.Split(out, "\n") {
+			if m := pkgHeaderRE.FindStringSubmatch(line); m != nil {
+				cur = -1
+				if i, ok := byName[m[1]]; ok {
+					cur = i
+					failed[i] = append(failed[i], line)
+				}
+				continue
+			}
+			if m := errLineRE.FindStringSubmatch(line); m != nil {
+				if i, ok := byName[m[1]]; ok {
+					failed[i] = append(failed[i], line)
+					continue
+				}
+			}
+			if cur >= 0 && strings.TrimSpace(line) != "" { // continuation lines of a message
+				failed[cur] = append(failed[cur], line)
+			}
+		}
+		return failed
+	}
+	for round := 0; len(alive) > 0; round++ {
+		cmd := exec.Command("go", "build", "./...")
+		cmd.Dir = dir
+		cmd.Env = goEnv()
+		out, err := cmd.CombinedOutput()
+		if err == nil {
+			break
+		}
+		failed := attribute(string(out))
+		n := 0
+		for i, lines := range failed {
+			if !alive[i] {
+				continue
+			}
+			recs[i].St, recs[i].Err = "build-error", trimTo(strings.Join(lines, "\n"), 3000)
+			delete(alive, i)
+			os.RemoveAll(filepath.Join(dir, specs[i].Name))
+			n++
+		}
+		if n == 0 || round > len(specs)+2 {
+			return nil, fmt.Errorf("go build failed and could not be attributed: %s", trimTo(string(out), 2000))
+		}
+	}
+	if vet && len(alive) > 0 {
+		cmd := exec.Command("go", "vet", "./...")
+		cmd.Dir = dir
+		cmd.Env = goEnv()
+		out, _ := cmd.CombinedOutput()
+		for i, lines := range attribute(string(out)) {
+			var keep []string
+			for _, l := range lines {
+				if !strings.HasPrefix(l, "#") {
+					keep = append(keep, l)
+				}
+			}
+			recs[i].Vet = trimTo(strings.Join(keep, "\n"), 1500)
+		}
+	}
+	return recs, nil
+}
 
 func worker(w *core.Worker) {
 	installHook()
@@ -814,29 +961,39 @@ func worker(w *core.Worker) {
 				break
 			}
 			end := min(start+buildBatch, len(mine))
-			var specs []genharness.Spec
+			var specs []buildSpec
 			for _, k := range mine[start:end] {
 				idx := list[k]
-				specs = append(specs, genharness.Spec{Name: caseName(idx), TM: src.tm(idx), Driver: nullDriver})
+				specs = append(specs, buildSpec{Idx: idx, Name: caseName(idx), TM: src.tm(idx)})
 			}
-			w.Case(mine[start], fmt.Sprintf("build batch of %d starting with %s", end-start, src.desc(list[mine[start]])))
-			outs, err := genharness.RunBatch(specs, genharness.BatchOpts{Vet: true})
+			desc := fmt.Sprintf("build batch of %d starting with %s", end-start, src.desc(list[mine[start]]))
+			w.Case(mine[start], desc)
+			// keep-alive while the go command runs (the machine is shared; a batch can take
+			// minutes): re-announce the batch every 30 s, for at most 15 minutes
+			stop, stopped := make(chan struct{}), make(chan struct{})
+			go func() {
+				defer close(stopped)
+				t := time.NewTicker(30 * time.Second)
+				defer t.Stop()
+				for n := 0; n < 30; n++ {
+					select {
+					case <-stop:
+						return
+					case <-t.C:
+						w.Case(mine[start], desc)
+					}
+				}
+			}()
+			recs, err := buildAll(specs, os.Getenv("C17_VET") != "" || !w.Quick())
+			close(stop)
+			<-stopped
 			if err != nil {
-				for _, k := range mine[start:end] {
-					w.Emit(record{T: "b", Idx: list[k], St: "harness", Err: trimTo(err.Error(), 1500)})
+				for _, sp := range specs {
+					w.Emit(record{T: "b", Idx: sp.Idx, St: "harness", Err: trimTo(err.Error(), 1500)})
 				}
 				continue
 			}
-			for bi, out := range outs {
-				r := record{T: "b", Idx: list[mine[start+bi]], St: "ok"}
-				switch {
-				case out.GenErr != "" || out.GenPanic != "":
-					r.St = "regen-failed"
-					r.Err = trimTo(out.GenErr+out.GenPanic, 1500)
-				case out.BuildErr != "":
-					r.St = "build-error"
-					r.Err = out.BuildErr
-				}
+			for _, r := range recs {
 				w.Emit(r)
 			}
 			w.Flush()
@@ -938,9 +1095,9 @@ func run(c *core.Ctx) {
 		os.Exit(0)
 	}
 	c.Rule("feature grammars (cmd/c17/grammars/*.tm, one feature each) x option assignments: per grammar the default configuration + a greedy pairwise-complete covering array over the 20 boolean options (every pair of free options in all 4 value combinations, in a row where the options they depend on are on); thorough adds every subset of the 12 parser options per grammar, by distance from the all-off / all-on corners. " +
-		"A case is distinct by (grammar, effective option assignment); non-trivial = accepted by the compiler and generating a file set (by content, package name normalised) not seen before, i.e. a distinct program handed to go build + go vet")
+		"A case is distinct by (grammar, effective option assignment); non-trivial = accepted by the compiler and generating a file set (by content, package name normalised) not seen before, i.e. a distinct set of packages handed to go build")
 	c.Assume("log.Fatal* is observed through a log output hook that panics with the caller's identity (the process would exit right after writing the message); other worker deaths and hangs are detected by the shard protocol")
-	c.Assume("go build / go vet of " + goVersion() + " decide 'builds'; two cases whose generated files are byte-identical after replacing the package name build alike, so one representative per distinct output is built")
+	c.Assume("`go build ./...` of " + goVersion() + " decides 'builds'; two cases whose generated files are byte-identical after replacing the package name build alike, so one representative per distinct output is built")
 	c.Assume("a compiler.Compile error means the grammar x option combination is rejected by the compiler and is outside the property's domain (counted as compile-rejected)")
 	c.Set("grammars", len(p.grammars))
 	c.Set("planned_cases", len(p.cases))
@@ -1054,12 +1211,18 @@ func run(c *core.Ctx) {
 	os.WriteFile(listFile, data, 0o644)
 	built := map[int]bool{}
 	buildCapped := false
+	vetDiag := map[string]int{}
 	onBuild := func(r record) {
 		built[r.Idx] = true
 		members := groups[info[r.Idx].hash]
+		for _, l := range strings.Split(r.Vet, "\n") {
+			if m := buildLnRE.FindStringSubmatch(strings.TrimSpace(l)); m != nil {
+				vetDiag[m[2]+": "+slug(m[3], 8)] += len(members)
+			}
+		}
 		switch r.St {
 		case "ok":
-			c.Outcome("built+vetted ok", int64(len(members)))
+			c.Outcome("built ok", int64(len(members)))
 			c.Nontrivial(1)
 			if c.SampleCount() < 8 {
 				c.Sample(p.desc(r.Idx))
@@ -1109,6 +1272,9 @@ func run(c *core.Ctx) {
 		}
 	}
 	c.Set("distinct_outputs_built", nb)
+	if len(vetDiag) > 0 {
+		c.Set("go_vet_diagnostics_informational", vetDiag)
+	}
 	if firstUnbuilt >= 0 || buildCapped {
 		level := ""
 		if firstUnbuilt >= p.quickN {
